@@ -135,6 +135,8 @@ def model(draw, tier, kinds=('exp', 'table', 'randpd'), nmin=2, tmax=24, allow_n
     if m['sym'] == 'asym':
         m['alpha'] = draw(st.sampled_from([1e-3, 0.02, 0.3]))
     m['noise'] = draw(noise())
+    if draw(st.integers(0, 3)) == 0:
+        m['scale'] = 10.0 ** draw(st.sampled_from([-9, -12, -10, 6]))
     m['none'] = []
     if allow_none and draw(st.booleans()):
         m['none'] = sorted(draw(st.lists(st.integers(0, T - 1), min_size=1, max_size=4, unique=True)))
@@ -263,7 +265,8 @@ def givens(n, angles):
 
 def overlap_matrix(m):
     n = m['N']
-    return givens(n, m['rot1']) @ np.diag(np.array(m['D'], dtype=float)) @ givens(n, m['rot2'])
+    # m['scale']: the whole correlator matrix in other units (overlaps times sqrt(scale)); the GEVP is scale invariant
+    return math.sqrt(float(m.get('scale', 1.0))) * (givens(n, m['rot1']) @ np.diag(np.array(m['D'], dtype=float)) @ givens(n, m['rot2']))
 
 
 def amplitudes(m, E=None):
@@ -285,7 +288,7 @@ def true_matrices(m, E=None):
         out = []
         for t in range(T):
             b = rng.normal(size=(n, n))
-            g = b @ b.T / n + m['eps'] * np.eye(n)
+            g = float(m.get('scale', 1.0)) * (b @ b.T / n + m['eps'] * np.eye(n))
             out.append(0.5 * (g + g.T))
         return out
     z = overlap_matrix(m)
@@ -688,6 +691,23 @@ def spectrum_oracle(spec):
             if ftol <= JUDGE:
                 require(within(np.max(np.abs(d - exp_d)), ftol * sc, 'ev_fluct_vobs' if c['vector_obs'] else 'ev_fluct'), what + ': fluctuation at t=%d differs from v^T dG(t) v%s: max dev %.3g, scale %.3g (tolerance %.3g)'
                         % (t, ' - lambda v^T dG(t0) v' if c['vector_obs'] else '', float(np.max(np.abs(d - exp_d))), sc, ftol))
+    if sort is None and isinstance(vecs, (list, np.ndarray)) and len(vecs) > 0 and isinstance(vecs[0], np.ndarray):
+        # a sequence of calls on one eigenvector: a projection with the rarely used normalize=True in between must not
+        # change what the vector projects to afterwards (the GEVP normalisation v^T G(t0) v = 1 belongs to the caller)
+        st0 = c['states'][0]
+        v0 = vecs[st0]
+        keep = np.array(v0, dtype=float).copy()
+        p1 = corr.projected(v0)
+        corr.projected(v0, normalize=True)
+        p2 = corr.projected(v0)
+        require(np.array_equal(np.array(v0, dtype=float), keep), what0 + '): projected(v, normalize=True) rescaled the eigenvector it was given',
+                keep.tolist(), np.array(v0, dtype=float).tolist())
+        for t in range(T):
+            if p1.content[t] is None:
+                continue
+            a_, b_ = float(p1[t].value), float(p2[t].value)
+            require(abs(a_ - b_) <= 1e-12 * max(abs(a_), abs(b_)), what0 + '): projected(v) at t=%d is %r before and %r after a call projected(v, normalize=True)'
+                    % (t, a_, b_))
     labs = labels(m, c)
     labs.append('values_judged:%s' % frac_bin(njudged / max(ntot, 1)))
     return {'nt': n >= 3 or t0 >= 2 or bool(none), 'cls': labs}
